@@ -86,7 +86,11 @@ func (t escapeMapping) Transform(dst, src []byte, atEOF bool) (nDst, nSrc int, e
 			n := copy(dst[nDst:], src[nSrc:nSrc+idx])
 			nDst += n
 			nSrc += n
-			if n != idx-nSrc {
+			if n != idx {
+				return nDst, nSrc, transform.ErrShortDst
+			}
+			// Only consume the character if its whole escape sequence fits.
+			if len(dst[nDst:]) < 3 {
 				return nDst, nSrc, transform.ErrShortDst
 			}
 			c := src[nSrc]
@@ -97,9 +101,6 @@ func (t escapeMapping) Transform(dst, src []byte, atEOF bool) (nDst, nSrc int, e
 			})
 			nDst += n
 			nSrc++
-			if n != 3 {
-				return nDst, nSrc, transform.ErrShortDst
-			}
 		}
 	}
 	return
@@ -223,15 +224,16 @@ func (t unescapeMapping) Transform(dst, src []byte, atEOF bool) (nDst, nSrc int,
 			if n != idx {
 				return nDst, nSrc, transform.ErrShortDst
 			}
+			// Only consume the escape sequence if the unescaped byte fits.
+			if len(dst[nDst:]) < 1 {
+				return nDst, nSrc, transform.ErrShortDst
+			}
 			// nSrc now points at the backslash, the hex digits follow it.
 			n = copy(dst[nDst:], []byte{
 				unhex(src[nSrc+1])<<4 | unhex(src[nSrc+2]),
 			})
 			nDst += n
 			nSrc += 3
-			if n != 1 {
-				return nDst, nSrc, transform.ErrShortDst
-			}
 			continue
 		}
 		n := copy(dst[nDst:], src[nSrc:nSrc+idx+1])
